@@ -322,7 +322,8 @@ func (g *G) observe() (E, string) {
 	var s sb
 	acc := g.fresh("acc")
 	s.both("%s := 0\n", acc)
-	vs := g.visible(func(v *Var) bool { return true })
+	vs := g.visible(func(v *Var) bool { return v.Ty.K == KPtr })
+	vs = append(vs, g.visible(func(v *Var) bool { return v.Ty.K != KPtr })...)
 	n := 0
 	for _, v := range vs {
 		if n >= 4 {
